@@ -84,6 +84,12 @@ func (g *gen) memCheck(w *world, ms *memSide, where string) int {
 	hits, total := otr3.VerifScan(ms.p.c, raw)
 	snap := otr3.VerifSnapshot(ms.p.c)
 	olog.ok("C08")
+	// C19: whatever a call owes the peer it hands out itself; nothing waits inside the conversation
+	// for some later call (where it would pile up with every further call of the kind)
+	olog.ok("C19")
+	if snap.Injections > 0 {
+		olog.viol("C19", "replies-queue-up", fmt.Sprintf("%s: the call has returned and %d message(s) for the peer are still held back inside the conversation (msgState %d, smp %d, our key id %d)", where, snap.Injections, snap.MsgState, snap.SmpState, snap.OurKeyID))
+	}
 	reachable := map[int]bool{}
 	textsReachable := 0
 	if ms.sessionKey == nil {
@@ -581,6 +587,259 @@ func (g *gen) rejectedInputRounds(w *world) {
 }
 
 
+// C19: user calls that are refused leave nothing behind. The calls that send a data message of their
+// own (AbortAuthentication, StartAuthenticate, ProvideAuthenticationSecret, UseExtraSymmetricKey, End)
+// are made, many times, where that message cannot be built:
+//   mode 0: in a conversation the peer has ended (finished), then - after End - in plaintext, then the
+//           next conversation begins;
+//   mode 1: in a private conversation whose randomness source failed exactly when the key exchange
+//           completed (no data message can be built until the peer's next message has moved the keys
+//           on); the peer's next message then arrives and the conversation goes on;
+//   mode 2: the same fault on the side that answers the Reveal Signature message (its Signature message
+//           is lost with the failure, the peer never speaks): the user gives up and ends the conversation.
+// Every scenario is run twice with new parties, without and with the refused calls (kinds), and ends
+// with the same closing calls. Oracle (a) after every call nothing is held back inside the conversation;
+// (b) each closing call hands out a batch of the same shape (how many messages, of which kind) in
+// both runs: what a Send / Receive / End returns does not depend on how many calls were refused before.
+var refusedKindNames = []string{"AbortAuthentication", "StartAuthenticate", "ProvideAuthenticationSecret", "UseExtraSymmetricKey"}
+
+func batchShape(ms []otr3.ValidMessage) string {
+	var s []string
+	for _, m := range ms {
+		switch {
+		case bytes.HasPrefix(m, []byte("?OTR Error:")):
+			s = append(s, fmt.Sprintf("error message %q", []byte(m)))
+		case isDataWire(m):
+			s = append(s, "data message")
+		case bytes.HasPrefix(m, []byte("?OTR:")) || bytes.HasPrefix(m, []byte("?OTR|")):
+			s = append(s, "key exchange message")
+		case bytes.HasPrefix(m, []byte("?OTR")):
+			s = append(s, "query message")
+		default:
+			s = append(s, "plain text")
+		}
+	}
+	return fmt.Sprintf("%d message(s) [%s]", len(ms), strings.Join(s, ", "))
+}
+
+type refusedRun struct {
+	reached bool
+	labels  []string
+	shapes  []string
+	refused int // calls that returned an error
+}
+
+func (g *gen) refusedCalls(w *world, version, mode int, kinds []int) (run refusedRun) {
+	w.parties = map[string]*party{}
+	w.dead = false
+	pol := 2
+	if version == 3 {
+		pol = 4
+	}
+	a := w.newParty(partyCfg{policies: pol, keyIdx: 0, errh: true})
+	b := w.newParty(partyCfg{policies: pol, keyIdx: 1, errh: true})
+	l := &link{w: w, a: a, b: b}
+	ctx := fmt.Sprintf("OTRv%d, %s", version, []string{
+		"conversation ended by the peer",
+		"private conversation, randomness failed when the key exchange completed (Signature message)",
+		"private conversation, randomness failed when the key exchange completed (Reveal Signature message)"}[mode])
+	calls := 0
+	var made []string // the refused calls so far, in order
+	history := func() string {
+		if len(made) == 0 {
+			return "no refused calls before"
+		}
+		var parts []string
+		for i := 0; i < len(made); {
+			j := i
+			for j < len(made) && made[j] == made[i] {
+				j++
+			}
+			parts = append(parts, fmt.Sprintf("%dx %s", j-i, made[i]))
+			i = j
+		}
+		return fmt.Sprintf("%d refused user calls before: %s", len(made), strings.Join(parts, ", "))
+	}
+	// (a) nothing is held back once a call has returned
+	held := func(p *party, what string) {
+		calls++
+		olog.ok("C19")
+		if sn := otr3.VerifSnapshot(p.c); sn.Injections > 0 {
+			olog.viol("C19", "replies-queue-up", fmt.Sprintf("%s: after %s (call #%d of the scenario; %s) %d message(s) for the peer are held back inside the conversation of %s (msgState %d, our key id %d): they will be handed out by some later Send or Receive", ctx, what, calls, history(), sn.Injections, p.id, sn.MsgState, sn.OurKeyID))
+		}
+	}
+	refuse := func(p *party, state string) {
+		var waiting []int // messages held back after each call of this round
+		grew := false
+		for _, k := range kinds {
+			var ts []otr3.ValidMessage
+			var err error
+			switch k {
+			case 0:
+				ts, err = w.smpAbort(p)
+			case 1:
+				ts, err = w.smpStart(p, "", []byte("s3"))
+			case 2:
+				ts, err = w.smpSecret(p, []byte("s3"))
+			default:
+				_, ts, err = w.extraKey(p, 7, []byte("use"))
+			}
+			if w.dead {
+				return
+			}
+			if err != nil {
+				run.refused++
+				made = append(made, refusedKindNames[k])
+			} else {
+				g.dist["mem:refused-calls:not-refused:"+refusedKindNames[k]+":"+state]++
+			}
+			l.enqueue(p, ts)
+			calls++
+			olog.ok("C19")
+			n := otr3.VerifSnapshot(p.c).Injections
+			waiting = append(waiting, n)
+			grew = grew || n > 0
+		}
+		if grew {
+			olog.viol("C19", "refused-calls-queue-up", fmt.Sprintf("%s: %d user calls %s (%s): the number of messages for the peer that are held back inside the conversation of %s after each of them: %v; a refused call must leave nothing behind", ctx, len(kinds), state, history(), p.id, waiting))
+		}
+	}
+	closing := func(p *party, label string, ts []otr3.ValidMessage) {
+		run.labels = append(run.labels, ctx+": "+label+" ("+history()+")")
+		run.shapes = append(run.shapes, batchShape(ts))
+		l.enqueue(p, ts)
+		held(p, label)
+	}
+	switch mode {
+	case 0:
+		l.enqueue(a, []otr3.ValidMessage{w.query(a)})
+		l.settle(40)
+		if w.dead || !a.c.IsEncrypted() || !b.c.IsEncrypted() {
+			return
+		}
+		ts, _ := w.send(b, g.cleanText())
+		l.enqueue(b, ts)
+		l.settle(10)
+		ts, _ = w.end(b)
+		l.enqueue(b, ts)
+		l.settle(10)
+		if w.dead || otr3.VerifSnapshot(a.c).MsgState != 2 {
+			return
+		}
+		run.reached = true
+		refuse(a, "in the conversation the peer has ended")
+		ts, _ = w.send(a, g.cleanText())
+		closing(a, "Send in the conversation the peer has ended", ts)
+		_, ts, _, _ = w.recv(a, []byte("are you there"))
+		closing(a, "Receive (a plain text) in the conversation the peer has ended", ts)
+		refuse(a, "in the conversation the peer has ended")
+		ts, _ = w.end(a)
+		closing(a, "End of the conversation the peer has ended", ts)
+		refuse(a, "in plaintext")
+		ts, _ = w.send(a, g.cleanText())
+		closing(a, "Send in plaintext", ts)
+		refuse(a, "in plaintext")
+		_, ts, _, _ = w.recv(a, []byte("?OTR Error: what was that"))
+		closing(a, "Receive (an error message) in plaintext", ts)
+		refuse(a, "in plaintext")
+		// the next conversation
+		w.tick(75)
+		_, ts, _, _ = w.recv(a, w.query(b))
+		closing(a, "Receive (the query message that starts the next conversation)", ts)
+		l.settle(40)
+		if w.dead || !a.c.IsEncrypted() || !b.c.IsEncrypted() {
+			return
+		}
+		ts, _ = w.send(a, g.cleanText())
+		closing(a, "Send in the next conversation", ts)
+		l.settle(10)
+	case 1, 2:
+		// a asks, b starts: b -> D-H Commit, a -> D-H Key, b -> Reveal Signature, a -> Signature
+		step := func(p *party, ms []otr3.ValidMessage) (out []otr3.ValidMessage) {
+			for _, m := range ms {
+				_, ts, _, _ := w.recv(p, m)
+				out = append(out, ts...)
+			}
+			return
+		}
+		reveal := step(b, step(a, step(b, []otr3.ValidMessage{w.query(a)})))
+		if w.dead || len(reveal) == 0 {
+			return
+		}
+		p, o := b, a
+		if mode == 1 {
+			sig := step(a, reveal)
+			b.rnd.failAt = b.rnd.reads // the one draw of the call: the next D-H key
+			l.enqueue(b, step(b, sig))
+		} else {
+			p, o = a, b
+			a.rnd.failAt = a.rnd.reads
+			l.enqueue(a, step(a, reveal))
+		}
+		p.rnd.failAt = -1 // the source works again
+		if sn := otr3.VerifSnapshot(p.c); w.dead || !p.c.IsEncrypted() || sn.OurKeyID != 1 {
+			return
+		}
+		run.reached = true
+		state := "in the private conversation that cannot build data messages"
+		refuse(p, state)
+		ts, _ := w.send(p, g.cleanText())
+		closing(p, "Send in the private conversation that cannot build data messages", ts)
+		l.settle(10)
+		refuse(p, state)
+		if mode == 1 {
+			// the peer's next message moves the keys on
+			ts, _ = w.send(o, g.cleanText())
+			l.enqueue(o, ts)
+			for len(l.qab) > 0 && !w.dead {
+				m := l.qab[0]
+				l.qab = l.qab[1:]
+				_, ts, _, _ = w.recv(p, m)
+				closing(p, "Receive (the peer's next message, after which data messages can be built again)", ts)
+			}
+			l.settle(10)
+			ts, _ = w.send(p, g.cleanText())
+			closing(p, "Send after the peer's next message", ts)
+			l.settle(10)
+			ts, _ = w.end(p)
+			closing(p, "End", ts)
+			l.settle(10)
+		} else {
+			ts, _ = w.end(p)
+			closing(p, "End of the private conversation that cannot build data messages", ts)
+			l.settle(10)
+			ts, _ = w.send(p, g.cleanText())
+			closing(p, "Send in plaintext, after End", ts)
+		}
+	}
+	return
+}
+
+func (g *gen) refusedCallRounds(w *world) {
+	for mode := 0; mode < 3; mode++ {
+		version := 2 + g.r.Intn(2)
+		kinds := make([]int, 4+g.r.Intn(6))
+		for i := range kinds {
+			kinds[i] = []int{0, 0, 0, 0, 1, 2, 3, 3}[g.r.Intn(8)]
+		}
+		without := g.refusedCalls(w, version, mode, nil)
+		with := g.refusedCalls(w, version, mode, kinds)
+		g.dist[fmt.Sprintf("mem:refused-calls:mode=%d:reached=%v", mode, without.reached && with.reached)]++
+		if !without.reached || !with.reached || w.dead {
+			continue
+		}
+		g.dist["mem:refused-calls:refused"] += with.refused
+		// (b) the same closing calls hand out the same batches
+		olog.ok("C19")
+		for i := 0; i < len(with.shapes) && i < len(without.shapes); i++ {
+			if with.shapes[i] != without.shapes[i] {
+				olog.viol("C19", "refused-calls-are-remembered", fmt.Sprintf("%s hands out %s; the same call at the same point of the same scenario run without the refused calls hands out %s", with.labels[i], with.shapes[i], without.shapes[i]))
+				break
+			}
+		}
+	}
+}
+
 // C08 / C18: the texts of a conversation that has ended are neither kept nor sent again in the next
 // one - whether it was ended here, by the peer, or both, with or without an unanswered error report
 func (g *gen) closedSessionText(w *world) {
@@ -871,6 +1130,10 @@ func init() {
 		// long texts (again after everything else)
 		for i := 0; i < (n+4)/5; i++ {
 			g.longTextErased(w)
+		}
+		// refused user calls (again after everything else)
+		for i := 0; i < (n+2)/3; i++ {
+			g.refusedCallRounds(w)
 		}
 		extra["panics"] = panicCount
 		olog.export(extra)
